@@ -289,6 +289,20 @@ theorem unary_filters (recv : GoVal) (ys : List GoVal) (hn : recv ≠ .nil)
     have hf : uniq [.slice .any ys] = .ok (.slice .any (uniqF ys)) := by simp [uniq, hp]
     exact applyFilter_unary (hu _ (by simp [unaryNames])) impl_uniq hn hc hf
 
+/-- `{{ a | sort }}` through the call layer, for a receiver of up to 12 elements (where Go's sort is an
+insertion sort, so that the verbatim result is determined): the sorted permutation of `sort_perm` /
+`sort_sorted`. `{{ a | concat: b }}` appends. -/
+theorem sort_concat_filters (recv arg : GoVal) (xs ys : List GoVal) (hn : recv ≠ .nil) (hn' : arg ≠ .nil)
+    (hc : convert recv .anys = .ok (.slice .any xs)) (hc' : convert arg .anys = .ok (.slice .any ys)) :
+    (homog xs = true → xs.length ≤ 12 →
+      applyFilter (lookupImpl stdFilterImpls) (bn "sort") recv [] = .ok (.slice .any (sortF xs))) ∧
+    applyFilter (lookupImpl stdFilterImpls) (bn "concat") recv [arg] = .ok (.slice .any (xs ++ ys)) :=
+  ⟨fun hh hl => applyFilter_sort hn hc hh hl, applyFilter_concat hn hn' hc hc'⟩
+
+example : convert (.range 3 1) .anys = .ok (.slice .any []) ∧ convert (.array .str [.str [98], .str [97]]) .anys
+    = .ok (.slice .any [.str [98], .str [97]]) ∧ homog [.str [98], .str [97]] = true := by
+  refine ⟨by simp [convert, GoVal.toLiquid, rangeInts], by simp [convert, GoVal.toLiquid, convElems], by decide +kernel⟩
+
 /-- a nil receiver is the empty array -/
 theorem nil_receiver :
     applyFilter (lookupImpl stdFilterImpls) (bn "compact") .nil [] = .ok (.slice .any []) ∧
